@@ -24,6 +24,11 @@
 (*           out (C08): optional '-', then exactly the digits              *)
 (*  "quote": the byte string in was quoted as out (C09):                   *)
 (*           Render!IsQuotingOf                                            *)
+(*  "ser"  : a document whose accessor walk is the value v was serialised  *)
+(*           as the bytes out (C06): the recogniser JsonText accepts out   *)
+(*           and what out denotes is v, number kinds included (a double    *)
+(*           is given by its bit pattern w: out's spelling must round to   *)
+(*           exactly that double)                                          *)
 (***************************************************************************)
 EXTENDS Render, Shortest, Json, CSV, IOUtils
 VARIABLE i
@@ -50,6 +55,19 @@ FtoaOk(ev) ==
 
 ItoaOk(ev) == ev.out = (IF ev.neg = 1 THEN <<45>> ELSE <<>>) \o [j \in 1..Len(ev.dg) |-> 48 + ev.dg[j]]
 
+RECURSIVE SameVal(_, _)
+SameVal(p, v) ==
+  CASE v.k \in {"null", "true", "false"} -> p.k = v.k
+    [] v.k = "str"  -> p.k = "str" /\ p.b = v.b
+    [] v.k = "uint" -> p.k = "num" /\ p.kind = "uint" /\ p.d = v.d
+    [] v.k = "sint" -> p.k = "num" /\ p.kind = "sint" /\ p.d = v.d
+    [] v.k = "real" -> p.k = "num" /\ p.kind = "real" /\ RoundsTo(p.neg, p.d, p.e, v.w)
+    [] v.k = "arr"  -> p.k = "arr" /\ Len(p.e) = Len(v.e) /\ \A j \in 1..Len(v.e) : SameVal(p.e[j], v.e[j])
+    [] v.k = "obj"  -> p.k = "obj" /\ Len(p.m) = Len(v.m)
+                       /\ \A j \in 1..Len(v.m) : p.m[j][1] = v.m[j][1] /\ SameVal(p.m[j][2], v.m[j][2])
+    [] OTHER -> FALSE
+SerOk(ev) == LET r == ParseText(ev.out) IN r.ok /\ SameVal(r.v, ev.v)
+
 Holds(ev) ==
   CASE ev.k = "parse" -> RoundsTo(ev.neg = 1, ev.d, ev.e, ev.w)
     [] ev.k = "pinf"  -> Overflows(ev.d, ev.e)
@@ -57,6 +75,7 @@ Holds(ev) ==
     [] ev.k = "ftoa" -> FtoaOk(ev)
     [] ev.k = "itoa" -> ItoaOk(ev)
     [] ev.k = "quote" -> IsQuotingOf(ev.out, ev["in"])
+    [] ev.k = "ser" -> SerOk(ev)
     [] OTHER -> FALSE
 
 Init == i \in 1..Len(Tr)
